@@ -7,6 +7,10 @@ CONSTANTS
   MaxTicks = 2
   MaxResub = 1
   QMax = 1
+  Timed = FALSE
+  CheckDelay = 40
+  Advances = {}
+  MaxNow = 0
   Urgent = TRUE
 INVARIANTS TypeOK
 CHECK_DEADLOCK FALSE
